@@ -167,7 +167,7 @@ def perturbations(g, rng, ir, choose=None):
     if bi is not None:
         P.append(("interval.uuid", setattr_(bi, "uuid", new_uuid())))
         P.append(("interval.address", setattr_(bi, "address", 0 if bi.address is None else (None if bi.address == 0 else bi.address ^ 8))))
-        P.append(("interval.size", setattr_(bi, "size", bi.size + 1)))
+        P.append(("interval.size", setattr_(bi, "size", bi.size + 1 if bi.size < (1 << 64) - 1 else bi.size - 1)))
         if len(bi.contents):
             def chg():
                 bi.contents[0] ^= 0x55
@@ -263,8 +263,8 @@ def perturbations(g, rng, ir, choose=None):
         if e.attributes:
             P.append(("expression.attribute-removed", lambda: e.attributes.discard(next(iter(e.attributes)))))
         P.append(("interval.expression-removed", lambda: xb.symbolic_expressions.pop(k)))
-        free = [kk for kk in (k + 1, k + 2, k + 3) if kk not in xb.symbolic_expressions]
-        P.append(("interval.expression-moved", lambda: xb.symbolic_expressions.__setitem__(free[0], xb.symbolic_expressions.pop(k))))
+        free_mv = [kk for kk in (k + 1, k + 2, k + 3, k - 1, k - 2, k - 3) if kk not in xb.symbolic_expressions and 0 <= kk < (1 << 64)]
+        P.append(("interval.expression-moved", lambda: xb.symbolic_expressions.__setitem__(free_mv[0], xb.symbolic_expressions.pop(k))))
     cfgn = [x for x in blocks if isinstance(x, g.CodeBlock)] + prox
     if cfgn:
         T = g.Edge.Type
@@ -488,6 +488,60 @@ def copy_of(g, ir):
     return protocheck.load_bytes(g, protocheck.save_bytes(ir))
 
 
+def twins_from_shared_arguments(ctx, g, rng, judge_pair):
+    """Two IRs with the same UUIDs built through the API from the SAME mutable argument objects (one bytearray, one flags set, one
+    attributes set, one AuxData map, one list of children per kind is never shared -- nodes have one parent): equal at first; an
+    in-place edit of ONE side's part (a byte, a flag, an attribute, a table added) makes them different, and an edit of the caller's
+    own argument objects afterwards changes neither."""
+    import uuid as uuidlib
+    for rd in range(6):
+        U = [uuidlib.UUID(int=rng.getrandbits(128)) for _ in range(8)]
+        buf = bytearray(b"\x01\x02\x03\x04")
+        flags = {g.Section.Flag.Readable}
+        attrs = {g.SymbolicExpression.Attribute(1)} if 1 in [a.value for a in g.SymbolicExpression.Attribute] else set()
+        aux = {"t": g.AuxData([1], "sequence<uint8_t>")}
+
+        def build():
+            ir = g.IR(uuid=U[0], aux_data=aux)
+            m = g.Module(name="m", uuid=U[1], ir=ir, aux_data=aux)
+            sec = g.Section(name="s", uuid=U[2], flags=flags, module=m)
+            bi = g.ByteInterval(uuid=U[3], size=8, contents=buf, address=0, section=sec)
+            g.CodeBlock(uuid=U[4], size=2, offset=0, byte_interval=bi)
+            y = g.Symbol("y", uuid=U[5], module=m)
+            bi.symbolic_expressions[1] = g.SymAddrConst(0, y, attrs)
+            return ir, m, sec, bi
+        (a, ma, sa, bia), (b, mb, sb, bib) = build(), build()
+        judge_pair(a, b, "T%d" % rd, "twins built from the same argument objects")
+        edits = [("a byte of one side's contents edited in place", lambda: bia.contents.__setitem__(0, bia.contents[0] ^ 0xFF)),
+                 ("one side's interval grown through initialized_size", lambda: setattr(bia, "initialized_size", 6)),
+                 ("a flag added to one side's section", lambda: sa.flags.add(g.Section.Flag.Writable)),
+                 ("an attribute added to one side's expression", lambda: bia.symbolic_expressions[1].attributes.add(4242)),
+                 ("a table added to one side's module", lambda: ma.aux_data.__setitem__("extra", g.AuxData(1, "uint8_t"))),
+                 ("a table added to one side's IR", lambda: a.aux_data.__setitem__("extra", g.AuxData(1, "uint8_t")))]
+        what, f = edits[rd % len(edits)]
+        try:
+            f()
+        except Exception as e:  # noqa: BLE001
+            ctx.add("oracle", "deep_eq-raised:shared-arguments", "%s raised %s" % (what, exc_name(g, e)), {})
+            continue
+        ctx.count("shared_argument_twins")
+        judge_pair(a, b, "T%d'" % rd, what)
+        # the caller's own objects, edited after both constructions: neither IR may follow
+        (c, _, _, bic), (d, _, _, bid) = build(), build()
+        before = (bytes(bic.contents), bytes(bid.contents))
+        buf[1] ^= 0x55
+        flags.add(g.Section.Flag.Executable)
+        attrs.add(777)
+        aux["later"] = g.AuxData(2, "uint8_t")
+        if (bytes(bic.contents), bytes(bid.contents)) != before:
+            ctx.add("oracle", "deep_eq-wrong:shared-arguments", "editing the caller's bytearray after construction changed the stored bytes of an interval built from it", {})
+        judge_pair(c, d, "T%d''" % rd, "the caller's argument objects edited after both constructions")
+        buf[1] ^= 0x55
+        flags.discard(g.Section.Flag.Executable)
+        attrs.discard(777)
+        aux.pop("later", None)
+
+
 def run(ctx):
     g = gtirb_from_repo.load()
     cov = irgen.Cov(ctx)
@@ -526,6 +580,7 @@ def run(ctx):
             return True
         except Exception:  # noqa: BLE001
             return False
+    twins_from_shared_arguments(ctx, g, ctx.rng, judge_pair)
     # the whole catalogue on a fixed IR holding one of everything, every element of every collection in turn
     fixed = full_ir(g)
     judge_pair(fixed, copy_of(g, fixed), "F", "save/load copy of the fixed IR")
